@@ -205,7 +205,7 @@ def parse_frb(fdata: bytes, header: Header, context: Context, script: Script):
         for nl in range(0, bc_narg):
             idxl = 2*nl + argnames_off
             n = struct.unpack(lsrc_bit_order+"h", fdata[idxl:idxl+2])[0]
-            if n > 0:
+            if n >= 0:
                 logging.debug("idxl = %x n=%s", idxl, n)
                 logging.debug('paramns[%s] = "%s"', nl, context.name_list[n])
                 fn.parameters.append(
